@@ -93,6 +93,8 @@ pub struct Totals {
   pub features: BTreeMap<&'static str, u64>,
   pub capped: bool,
   pub completed_k: usize,
+  /// violation classes of OTHER properties seen in the same executions (information only)
+  pub other: BTreeMap<String, u64>,
 }
 
 pub struct RunSpec<'a> {
@@ -173,6 +175,8 @@ pub fn run_histories<S>(
                 what,
                 json!({"suite": spec.suite, "cfg": spec.cfg_label, "choices": vectors[i], "history": e.rendered}),
               );
+            } else if prop != "C16" && prop != "MACHINERY" {
+              *totals.other.entry(format!("{prop}:{class}")).or_default() += 1;
             }
           }
         }
@@ -199,6 +203,13 @@ pub fn fold_totals(report: &mut Report, prefix: &str, t: &Totals, requested_k: u
   report.set(&format!("{prefix}.deviation_bound_requested"), requested_k as u64);
   report.set(&format!("{prefix}.deviation_bound_completed"), t.completed_k as u64);
   report.set(&format!("{prefix}.capped"), t.capped);
+  if !t.other.is_empty() {
+    // the same executions evaluate the oracles of the sibling properties of the suite; listed for information
+    report.set(&format!("{prefix}.sibling_property_classes_seen"), json!(t.other));
+    for (k, n) in &t.other {
+      println!("INFO sibling oracle in this exploration: {k} x{n}");
+    }
+  }
   report.set(
     &format!("{prefix}.features"),
     json!(t.features.iter().map(|(k, v)| (k.to_string(), *v)).collect::<BTreeMap<_, _>>()),
